@@ -117,6 +117,7 @@ type c33TxSpec struct {
 	name   string
 	sender int
 	needs  string // name of the entry that must precede this one in the block ("" = always valid)
+	to     common.Address
 	make   func(w *c33World, nonce uint64) *types.Transaction
 }
 
@@ -216,7 +217,7 @@ func c33NewWorld() *c33World {
 	}
 
 	call := func(name string, sender int, to common.Address, value int64, data []byte) c33TxSpec {
-		return c33TxSpec{name: name, sender: sender, make: func(w *c33World, nonce uint64) *types.Transaction {
+		return c33TxSpec{name: name, sender: sender, to: to, make: func(w *c33World, nonce uint64) *types.Transaction {
 			return types.MustSignNewTx(w.keys[sender], w.env.signer, &types.DynamicFeeTx{
 				ChainID: w.env.cfg.ChainID, Nonce: nonce, To: &to, Value: big.NewInt(value), Gas: 3_000_000,
 				GasFeeCap: newGwei(10), GasTipCap: newGwei(1 + int64(sender)), Data: data,
@@ -238,7 +239,7 @@ func c33NewWorld() *c33World {
 			GasFeeCap: newGwei(10), GasTipCap: newGwei(1),
 		})
 	}
-	setcode := c33TxSpec{name: "SETCODE_B", sender: c33B, make: func(w *c33World, nonce uint64) *types.Transaction {
+	setcode := c33TxSpec{name: "SETCODE_B", sender: c33B, to: w.addrs[c33E], make: func(w *c33World, nonce uint64) *types.Transaction {
 		auth, err := types.SignSetCode(w.keys[c33E], types.SetCodeAuthorization{
 			ChainID: *uint256.MustFromBig(w.env.cfg.ChainID), Address: c33DLG, Nonce: 0,
 		})
@@ -1451,12 +1452,18 @@ func TestVerif_C33_race(t *testing.T) {
 			return
 		}
 
-		reps := mc.Pick(r, 1, 20) // a race-instrumented execution costs 10-20 ms; the detector does not need repetition to see unsynchronised sharing
+		// Repetitions per block and GOMAXPROCS value. The race detector only reports accesses that really
+		// were unordered in the run (the processor's atomic work cursor orders a worker that starts late
+		// after the work of the others), so overlap has to happen: blocks whose transactions all call the
+		// same account (densest sharing) are repeated repsDense times, the others reps times.
+		reps := mc.Pick(r, 1, 20)
+		repsDense := mc.Pick(r, 10, 40)
 		procs := []int{4, 16}
-		r.Rule("every ordered selection of 2 transactions of the full alphabet (incl. the BLOCKHASH units of three senders) on top of 7 empty ancestors; each block executed reps times by the access-list-driven processor per GOMAXPROCS value, " +
+		r.Rule("every ordered selection of 2 transactions of the full alphabet (incl. the BLOCKHASH units of three senders) and every ordered selection of 3 transactions calling one and the same account, on top of 7 empty ancestors; each block executed reps times (blocks whose transactions all call the same account: repsDense times) by the access-list-driven processor per GOMAXPROCS value, " +
 			"result digest (gas, state root, receipt root, requests hash, rebuilt access list) compared with sequential execution, ValidateState must accept; the step runs under the Go race detector")
 		r.Bound("alphabet", len(w.txs))
 		r.Bound("repetitions_per_gomaxprocs", reps)
+		r.Bound("repetitions_per_gomaxprocs_same_target_blocks", repsDense)
 		r.Bound("gomaxprocs", procs)
 		r.Assume("free-running goroutines: the race detector observes the synchronisation actually performed, it does not enumerate schedules")
 
@@ -1465,6 +1472,12 @@ func TestVerif_C33_race(t *testing.T) {
 			all = append(all, i)
 		}
 		sels := c33Selections(all, 2)
+		// plus every ordered selection of 3 transactions that all call the same account (three workers)
+		for _, sel := range c33Selections(all, 3) {
+			if w.txs[sel[0]].to == w.txs[sel[1]].to && w.txs[sel[1]].to == w.txs[sel[2]].to {
+				sels = append(sels, sel)
+			}
+		}
 		if r.Replaying() {
 			var d struct {
 				Txs []string `json:"txs"`
@@ -1472,7 +1485,11 @@ func TestVerif_C33_race(t *testing.T) {
 			_ = json.Unmarshal(r.ReplayDescriptor(), &d)
 			var keep [][]int
 			for _, sel := range sels {
-				if len(d.Txs) == 2 && w.txs[sel[0]].name == d.Txs[0] && w.txs[sel[1]].name == d.Txs[1] {
+				same := len(d.Txs) == len(sel)
+				for i := 0; same && i < len(sel); i++ {
+					same = w.txs[sel[i]].name == d.Txs[i]
+				}
+				if same {
 					keep = append(keep, sel)
 				}
 			}
@@ -1502,7 +1519,10 @@ func TestVerif_C33_race(t *testing.T) {
 				return nil
 			})
 			if err != nil {
-				names := []string{w.txs[sels[i][0]].name, w.txs[sels[i][1]].name}
+				var names []string
+				for _, x := range sels[i] {
+					names = append(names, w.txs[x].name)
+				}
 				r.Violation("race-build:"+fmt.Sprint(names), err.Error(), map[string]any{"phase": "race-build", "txs": names})
 			}
 		})
@@ -1513,6 +1533,22 @@ func TestVerif_C33_race(t *testing.T) {
 			}
 		}
 		r.Bound("blocks", len(live))
+		// Order of execution only (the space is unchanged): blocks whose two transactions call the
+		// same account first, then same sender, then the rest, so that a run cut short by its budget
+		// has covered the blocks with the densest sharing.
+		rank := func(it *item) int {
+			a, b := w.txs[it.b.sel[0]], w.txs[it.b.sel[1]]
+			switch {
+			case len(it.b.sel) == 3: // same account by construction
+				return 0
+			case a.to == b.to:
+				return 0
+			case a.sender == b.sender:
+				return 1
+			}
+			return 2
+		}
+		sort.SliceStable(live, func(i, j int) bool { return rank(live[i]) < rank(live[j]) })
 		for _, g := range procs {
 			if r.Expired() {
 				return
@@ -1536,8 +1572,12 @@ func TestVerif_C33_race(t *testing.T) {
 						}
 						it := live[i]
 						desc := map[string]any{"phase": "race", "gomaxprocs": g, "txs": it.b.names}
+						n := reps
+						if rank(it) == 0 {
+							n = repsDense
+						}
 						r.Case(desc, func() error {
-							for rep := 0; rep < reps; rep++ {
+							for rep := 0; rep < n; rep++ {
 								var got string
 								var valErr error
 								procErr := c.parallelDo(it.b.block, func(statedb *state.StateDB, res *ProcessResult) {
